@@ -26,6 +26,9 @@ func envSet() int {
 var callIndex int // indexes Fail calls
 
 func Fail() {
+	if verifFail() {
+		return
+	}
 	callIndexToFail := envSet()
 	if callIndexToFail < 0 {
 		return
